@@ -101,3 +101,142 @@ def clip_segment_convex_or_not(a, b, poly):
             if out and abs(out[-1][1] - t0) < 1e-15: out[-1][1] = t1
             else: out.append([t0, t1])
     return out
+
+
+# ---------------------------------------------------------------------- additions for C11 / C12
+# (mesh-level helpers: point location over many polygons, conformity, convexity, clipping by parameter)
+
+def bbox(poly):
+    xs = [float(p[0]) for p in poly]; ys = [float(p[1]) for p in poly]
+    return (min(xs), min(ys), max(xs), max(ys))
+
+
+def diameter(poly):
+    b = bbox(poly)
+    return math.hypot(b[2] - b[0], b[3] - b[1])
+
+
+class Mesh(object):
+    """A list of polygons (lists of (x, y)) with bounding boxes, for brute-force point location.
+    The bounding boxes are used only to skip polygons that cannot contain / come near the point
+    (padded by `pad`); containment itself is always decided by the winding number."""
+
+    def __init__(self, polys):
+        import numpy as np
+        self.polys = [[(float(p[0]), float(p[1])) for p in poly] for poly in polys]
+        bb = [bbox(p) for p in self.polys] or [(0., 0., 0., 0.)]
+        self.bb = np.array(bb, dtype=float).reshape(-1, 4)
+
+    def candidates(self, p, pad=0.0):
+        import numpy as np
+        if not self.polys: return []
+        x, y = float(p[0]), float(p[1])
+        m = (self.bb[:, 0] - pad <= x) & (x <= self.bb[:, 2] + pad) & (self.bb[:, 1] - pad <= y) & (y <= self.bb[:, 3] + pad)
+        return [int(i) for i in np.nonzero(m)[0]]
+
+    def containing(self, p):
+        """indices of all polygons whose winding number around p is non-zero"""
+        return [i for i in self.candidates(p) if winding(p, self.polys[i]) != 0]
+
+    def edge_dist(self, p, pad):
+        """distance from p to the nearest polygon edge, or None if it is larger than pad"""
+        best = None
+        for i in self.candidates(p, pad):
+            d = boundary_dist(p, self.polys[i])
+            if d <= pad and (best is None or d < best): best = d
+        return best
+
+
+def is_convex(poly, tol=0.0):
+    """True if every turn of the (counter-clockwise) polygon is to the left or straight
+    (cross product >= -tol * |e1| * |e2|)."""
+    n = len(poly)
+    for i in range(n):
+        ax, ay = float(poly[i][0]), float(poly[i][1])
+        bx, by = float(poly[(i + 1) % n][0]), float(poly[(i + 1) % n][1])
+        cx, cy = float(poly[(i + 2) % n][0]), float(poly[(i + 2) % n][1])
+        cr = (bx - ax) * (cy - by) - (by - ay) * (cx - bx)
+        if cr < -tol * math.hypot(bx - ax, by - ay) * math.hypot(cx - bx, cy - by): return False
+    return True
+
+
+def turn_angles(poly):
+    """interior angle (radians) at every vertex of a counter-clockwise polygon, by atan2 of cross and dot
+    products of the adjacent sides"""
+    n = len(poly)
+    out = []
+    for i in range(n):
+        ax, ay = float(poly[i - 1][0]), float(poly[i - 1][1])
+        bx, by = float(poly[i][0]), float(poly[i][1])
+        cx, cy = float(poly[(i + 1) % n][0]), float(poly[(i + 1) % n][1])
+        ux, uy, vx, vy = bx - ax, by - ay, cx - bx, cy - by
+        ext = math.atan2(ux * vy - uy * vx, ux * vx + uy * vy)      # exterior (turning) angle, left positive
+        out.append(math.pi - ext)
+    return out
+
+
+def convex_combination(poly, weights):
+    """sum w_i p_i / sum w_i with positive weights: strictly inside a convex polygon"""
+    s = float(sum(weights))
+    x = sum(float(w) * float(p[0]) for w, p in zip(weights, poly)) / s
+    y = sum(float(w) * float(p[1]) for w, p in zip(weights, poly)) / s
+    return (x, y)
+
+
+def hanging_nodes(points, edges, rel=1e-6):
+    """All (point index, edge index) pairs where the point lies in the open interior of the edge:
+    perpendicular distance <= rel * length and projection parameter in (rel, 1 - rel).
+    points: list of (x, y); edges: list of ((x0, y0), (x1, y1), i0, i1) with i0, i1 the indices of the
+    end points in `points` (never reported for their own edge).  Vectorised with numpy (O(P*E))."""
+    import numpy as np
+    if not points or not edges: return []
+    P = np.array([[float(p[0]), float(p[1])] for p in points])
+    out = []
+    for k, (a, b, i0, i1) in enumerate(edges):
+        ax, ay, bx, by = float(a[0]), float(a[1]), float(b[0]), float(b[1])
+        dx, dy = bx - ax, by - ay
+        L2 = dx * dx + dy * dy
+        if L2 == 0: continue
+        L = math.sqrt(L2)
+        t = ((P[:, 0] - ax) * dx + (P[:, 1] - ay) * dy) / L2
+        dist = np.abs((P[:, 0] - ax) * dy - (P[:, 1] - ay) * dx) / L
+        m = (t > rel) & (t < 1 - rel) & (dist <= rel * L)
+        for j in np.nonzero(m)[0]:
+            j = int(j)
+            if j != i0 and j != i1: out.append((j, k))
+    return out
+
+
+def point_to_line_param(p, a, b):
+    """(t, perpendicular distance) of p relative to the line a + t (b - a)"""
+    ax, ay, bx, by, px, py = float(a[0]), float(a[1]), float(b[0]), float(b[1]), float(p[0]), float(p[1])
+    dx, dy = bx - ax, by - ay
+    L2 = dx * dx + dy * dy
+    t = ((px - ax) * dx + (py - ay) * dy) / L2
+    return t, abs((px - ax) * dy - (py - ay) * dx) / math.sqrt(L2)
+
+
+def min_crossing_sine(a, b, poly):
+    """smallest |sin| of the angle between segment ab and any polygon edge it crosses (1.0 if none);
+    also the smallest distance from the infinite line's crossing to an end of that edge is not considered."""
+    ax, ay, bx, by = float(a[0]), float(a[1]), float(b[0]), float(b[1])
+    dx, dy = bx - ax, by - ay
+    Ld = math.hypot(dx, dy)
+    best = 1.0
+    n = len(poly)
+    for i in range(n):
+        x0, y0 = float(poly[i][0]), float(poly[i][1])
+        x1, y1 = float(poly[(i + 1) % n][0]), float(poly[(i + 1) % n][1])
+        ex, ey = x1 - x0, y1 - y0
+        Le = math.hypot(ex, ey)
+        if Le == 0 or Ld == 0: continue
+        den = dx * ey - dy * ex
+        s = abs(den) / (Ld * Le)
+        if den == 0:
+            # parallel: relevant only if the edge lies on the line
+            if abs((x0 - ax) * dy - (y0 - ay) * dx) / Ld <= 1e-9 * max(Ld, Le): best = 0.0
+            continue
+        t = ((x0 - ax) * ey - (y0 - ay) * ex) / den
+        u = ((x0 - ax) * dy - (y0 - ay) * dx) / den
+        if -1e-9 <= t <= 1 + 1e-9 and -1e-9 <= u <= 1 + 1e-9: best = min(best, s)
+    return best
